@@ -5,7 +5,7 @@ package vanguard
 // backend writes split / byte-by-byte / all-in-one / with empty writes and flushes) - must hand the
 // same bytes to the backend and the same response to the client, and both must match the reference.
 func hC08Seg() {
-	cfg, ok := pickPipeCfg()
+	cfg, ok := pickAdapterCfg()
 	if !ok {
 		return
 	}
@@ -15,18 +15,48 @@ func hC08Seg() {
 	target, codec, comp := refNegotiate(cfg)
 	unaryKind := cfg.kind == fkUnary
 	targetEnveloped := target == ProtocolGRPC || target == ProtocolGRPCWeb || (target == ProtocolConnect && !unaryKind)
-	reqMsgs := pickMsgs("req", clientEnveloped(cfg.client), cfg.clientComp, unaryKind)
-	backendComp := cfg.svcComp && verifChoose("respComp", 2) == 1
-	respMsgs := pickMsgs("resp", targetEnveloped, backendComp, unaryKind)
-
-	chunk := verifChoose("chunk", 3) + 1
-	bufSize := []int{1, 2, 3, 4, 5, 7}[verifChoose("bufsize", 6)]
-	mode := verifChoose("writeMode", 5)
-	splitAt := 0
-	if mode == wmSplit {
-		splitAt = verifChoose("splitAt", 6) + 1
+	varyReq, varyResp := true, true
+	if verifTier() == 0 {
+		varyReq = verifChoose("direction", 2) == 0
+		varyResp = !varyReq
 	}
-	eofWithData := verifChoose("eofWithData", 2) == 1
+	reqMsgs := []wireMsg{{abstract: []byte{'q'}}}
+	if varyReq {
+		reqMsgs = pickMsgs("req", clientEnveloped(cfg.client), cfg.clientComp, unaryKind)
+	}
+	backendComp := cfg.svcComp && varyResp && verifChoose("respComp", 2) == 1
+	respMsgs := []wireMsg{{abstract: []byte{'r'}}}
+	if varyResp {
+		respMsgs = pickMsgs("resp", targetEnveloped, backendComp, unaryKind)
+	}
+
+	// segmentation profile: thorough crosses every dimension, quick picks from six combined profiles
+	var chunk, bufSize, mode, splitAt int
+	var eofWithData bool
+	if verifTier() == 1 {
+		chunk = verifChoose("chunk", 3) + 1
+		bufSize = []int{1, 2, 3, 4, 5, 7}[verifChoose("bufsize", 6)]
+		mode = verifChoose("writeMode", 5)
+		if mode == wmSplit {
+			splitAt = verifChoose("splitAt", 6) + 1
+		}
+		eofWithData = verifChoose("eofWithData", 2) == 1
+	} else {
+		switch verifChoose("profile", 6) {
+		case 0:
+			chunk, bufSize, mode = 1, 1, wmBytes
+		case 1:
+			chunk, bufSize, mode, splitAt = 2, 3, wmSplit, 1
+		case 2:
+			chunk, bufSize, mode, splitAt = 3, 4, wmSplit, 5
+		case 3:
+			chunk, bufSize, mode = 1, 7, wmOneShot
+		case 4:
+			chunk, bufSize, mode = 3, 2, wmNoisy
+		default:
+			chunk, bufSize, mode, splitAt, eofWithData = 2, 5, wmSplit, 6, true
+		}
+	}
 	declareLen := !targetEnveloped && verifChoose("declareLen", 2) == 1
 
 	// reference run
